@@ -88,6 +88,10 @@ func loadAdvPKI() (*advPKI, error) {
 			}
 			m["good"] = mk(adv.ca, usage[0], "localhost", ok0, ok1)
 			m["untrusted"] = mk(adv.rogue, usage[0], "localhost", ok0, ok1)
+			// the same, followed by the certificate of the CA that nobody trusts (a server may append its chain)
+			wc := mk(adv.rogue, usage[0], "localhost", ok0, ok1)
+			wc.Certificate = append(wc.Certificate, adv.rogue.der)
+			m["untrusted_with_ca"] = wc
 			m["expired"] = mk(adv.ca, usage[0], "localhost", now.Add(-48*time.Hour), now.Add(-24*time.Hour))
 			m["notyet"] = mk(adv.ca, usage[0], "localhost", now.Add(24*time.Hour), now.Add(48*time.Hour))
 			m["wrongname"] = mk(adv.ca, usage[0], "other.example", ok0, ok1)
